@@ -1291,6 +1291,67 @@ pub fn gen_type_nesting(r: &mut Rng) -> Vec<u8> {
     a.finish()
 }
 
+/// W-mutual: two to four constant slots whose types refer to each other in a
+/// ring - slot i is a mapping or an array whose values are `sload(slot i+1)`,
+/// the last one refers back to the first (`m[k] = sload(1); arr[i] =
+/// sload(0)`). Every slot's resolved type is then cut off as infinite
+/// somewhere, and *where* depends on the slot the resolution starts from; a
+/// layout that is resolved slot by slot in table order must still not depend
+/// on that order.
+pub fn gen_mutual(r: &mut Rng) -> Vec<u8> {
+    let mut a = Asm::new();
+    let n = 2 + r.usize_below(3);
+    let base = r.below(3) as u128;
+    // now and then only a chord instead of the full ring, or a second
+    // reference from one slot
+    let mut refs: Vec<(usize, usize)> = (0..n).map(|i| (i, (i + 1) % n)).collect();
+    if r.chance(1, 4) {
+        refs.push((r.usize_below(n), r.usize_below(n)));
+    }
+    if r.chance(1, 2) {
+        r.shuffle(&mut refs);
+    }
+    for (i, to) in refs {
+        let slot = base + i as u128;
+        // v = sload(slot `to`)
+        a.push_u(base + to as u128).op(op::SLOAD);
+        match r.below(4) {
+            0 => {
+                // sstore(keccak(caller . slot), v): mapping(address => T)
+                a.op(op::CALLER).op(op::PUSH0).op(op::MSTORE);
+                a.push_u(slot).push_u(0x20).op(op::MSTORE);
+                a.push_u(0x40).op(op::PUSH0).op(op::SHA3);
+                a.op(op::SSTORE);
+            }
+            1 => {
+                // sstore(keccak(calldata . slot), v): mapping(K => T)
+                a.push_u(4).op(op::CALLDATALOAD).op(op::PUSH0).op(op::MSTORE);
+                a.push_u(slot).push_u(0x20).op(op::MSTORE);
+                a.push_u(0x40).op(op::PUSH0).op(op::SHA3);
+                a.op(op::SSTORE);
+            }
+            2 => {
+                // sstore(keccak(slot) + calldataload(4), v): T[]
+                a.push_u(slot).op(op::PUSH0).op(op::MSTORE);
+                a.push_u(0x20).op(op::PUSH0).op(op::SHA3);
+                a.push_u(4).op(op::CALLDATALOAD).op(op::ADD);
+                a.op(op::SSTORE);
+            }
+            _ => {
+                // the array reached through the literal hash of its slot
+                a.push(keccak_word(U256::from(slot))).push_u(36).op(op::CALLDATALOAD).op(op::ADD).op(op::SSTORE);
+            }
+        }
+    }
+    if r.chance(1, 2) {
+        // one of the slots is also used directly
+        typed_value(&mut a, r);
+        a.push_u(base + r.below(n as u64) as u128).op(op::SSTORE);
+    }
+    a.op(op::STOP);
+    a.finish()
+}
+
 pub fn gen_growth(r: &mut Rng) -> Vec<u8> {
     if r.chance(1, 7) {
         return gen_type_nesting(r);
